@@ -13,6 +13,9 @@ import SfntV.Proofs.OtlGtab
 import SfntV.Proofs.OtlScriptList
 import SfntV.Proofs.OtlGsub8
 import SfntV.Proofs.OtlGposMark
+import SfntV.Proofs.OtlGposMark4
+import SfntV.Proofs.OtlGpos22
+import SfntV.Proofs.OtlContext
 
 namespace SfntV.Props.C08
 open SfntV SfntV.Otl
@@ -381,6 +384,156 @@ theorem C08_st_roundtrip_gpos3_1 (rev : List Nat) (recs : List GposMark.EntryExi
 
 example : GposMark.encode31 [4, 9] [((100, 65436), (0, 0)), ((0, 0), (7, 8))] =
     .ok (wordsToBytes [1, 26, 2, 14, 0, 0, 20, 1, 100, 65436, 1, 7, 8, 1, 2, 4, 9]) := by decide
+
+/-! ## Mark arrays and GPOS 4.1 / 6.1 (mark-to-base and mark-to-mark attachment: the same layout, the
+same Go code up to names, one model; model of the repaired encoders)
+
+`GposMark.MarkOk`: mark class and anchor coordinates are 16-bit values. -/
+
+/-- A mark array written at any (even) position of a table is read back from that position by
+`markarray.Read` with the number of marks as limit. -/
+theorem C08_markarray_roundtrip (c : Bytes) (ms : List GposMark.Mark) (P T : List Nat)
+    (hok : ∀ m ∈ ms, GposMark.MarkOk m) (hfit : 2 + 10 * ms.length ≤ 65536)
+    (hP : ∀ w ∈ GposMark.markArrayWords ms ++ T, w < 65536) :
+    GposMark.readMarkArray (wordsToBytes (P ++ (GposMark.markArrayWords ms ++ T)) ++ c) (2 * P.length)
+      ms.length = .ok ms :=
+  GposMark.markArray_spec c ms P T hok hfit hP
+
+/-- GPOS 4.1 / 6.1: one mark record per glyph of the mark coverage, one row of `classCount` anchors
+per glyph of the base (mark2) coverage; an empty anchor (0, 0) is written as offset 0.  Whenever the
+encoder returns bytes (it panics when the base-array offset or an anchor offset does not fit 16 bits),
+the reader gives everything back and the declared size is the emitted size.
+Hypothesis `hno` is a restriction of the READER, which rejects base arrays with more than 32764
+offsets although the encoder writes them (possible only if all but at most one anchor are empty):
+noted as a finding, see cfg. -/
+theorem C08_st_roundtrip_gpos4_1_6_1 (mcov bcov : List Nat) (marks : List GposMark.Mark)
+    (bases : List (List GposMark.Anchor))
+    (h1 : Cov.Valid mcov) (h2 : Cov.Valid bcov) (hm : marks.length = mcov.length)
+    (hbl : bases.length = bcov.length) (hbn : bases.length < 65536)
+    (hrows : ∀ row ∈ bases, row.length = GposMark.countMarkClasses marks bases)
+    (hcc : GposMark.countMarkClasses marks bases < 65536)
+    (hno : bases.length * GposMark.countMarkClasses marks bases ≤ 32764)
+    (hmk : ∀ m ∈ marks, GposMark.MarkOk m) (hba : ∀ row ∈ bases, ∀ a ∈ row, GposMark.AOk a) (b : Bytes)
+    (henc : GposMark.encode41 mcov bcov marks bases = .ok b) :
+    GposMark.read41 b = .ok ⟨mcov.zipIdx, bcov.zipIdx, marks, bases⟩ ∧
+    GposMark.encodeLen41 mcov bcov marks bases = .ok b.length :=
+  GposMark.roundtrip41 mcov bcov marks bases h1 h2 hm hbl hbn hrows hcc hno hmk hba b henc
+
+example : GposMark.encode41 [40] [7, 8] [⟨1, (5, 6)⟩] [[(0, 0), (3, 4)], [(9, 65535), (0, 0)]] =
+    .ok (wordsToBytes [1, 12, 18, 2, 26, 38, 1, 1, 40, 1, 2, 7, 8, 1, 1, 6, 1, 5, 6,
+      2, 0, 10, 16, 0, 1, 3, 4, 1, 9, 65535]) := by decide
+
+/-! ## GPOS 2.2 (pair adjustment by classes; model of the repaired `Gpos2_2.encode`)
+
+The two class definition tables enter the encoder as what `Append` / `AppendLen` return
+(`GposMark.ClassPart`); `GposMark.PartGood c B k` says: the bytes are `B`, the declared length is their
+number, and `classdef.Read` makes `k` of them whatever follows - which holds for every table with
+16-bit glyph ids and classes (`C08_gpos2_2_classpart`, from the class-definition round trip).
+Normal form, as for GPOS 1.2 / 2.1: every value record is read back with exactly the fields of the
+formats chosen for the whole subtable (`Gpos.masked`; a nil record next to non-nil ones comes back as
+zeros).  Hypothesis `hn` is a restriction of the READER (class1Count * class2Count < 65536), which
+the encoder does not check; it can only be violated when every value record is nil. -/
+
+theorem C08_gpos2_2_classpart (m : ClassDef.Tab) (hm : Gdef.ClassGood m) (B : Bytes)
+    (hB : ClassDef.append m = .ok B) :
+    ∃ k, GposMark.PartGood ⟨ClassDef.append m, ClassDef.appendLen m⟩ B k ∧
+      ∀ g, ClassDef.classOf k g = ClassDef.get m g :=
+  GposMark.partGood_of_table m hm B hB
+
+theorem C08_st_roundtrip_gpos2_2 (cov : List Nat) (hcov : Cov.Valid cov) (c1 c2 : GposMark.ClassPart)
+    (B1 B2 : Bytes) (k1 k2 : List (Nat × Nat)) (g1 : GposMark.PartGood c1 B1 k1)
+    (g2 : GposMark.PartGood c2 B2 k2) (rows : List GposMark.Row)
+    (hrows : ∀ r ∈ rows, r.length = GposMark.class2Count rows)
+    (hok : ∀ r ∈ rows, ∀ p ∈ r, Gpos.VROk p.1 ∧ Gpos.VROk p.2)
+    (hn1 : rows.length < 65536) (hn2 : GposMark.class2Count rows < 65536)
+    (hn : rows.length * GposMark.class2Count rows < 65536) (b : Bytes)
+    (henc : GposMark.encode22 cov c1 c2 rows = .ok b) :
+    GposMark.read22 b = .ok ⟨cov, k1, k2,
+      rows.map fun r => r.map (GposMark.maskPair (GposMark.fmt1 rows) (GposMark.fmt2 rows))⟩ ∧
+    GposMark.encodeLen22 cov c1 c2 rows = .ok b.length :=
+  GposMark.roundtrip22 cov hcov c1 c2 B1 B2 k1 k2 g1 g2 rows hrows hok hn1 hn2 hn b henc
+
+/-! ## Contextual lookups (GSUB types 5, 6 = GPOS types 7, 8; models of the repaired encoders in nested.go)
+
+A rule set is `none` (nil: written as offset 0) or `some rules` (possibly empty).  `Ctx.ROk1` /
+`Ctx.ROkC` are the domains of the rules of the unchained / chained kinds: 16-bit glyph ids (classes),
+sequence and lookup indices, counts that fit 16 bits, and no backtrack / lookahead for the unchained
+kind.  Each theorem: whenever the encoder returns bytes (it panics when an offset does not fit 16
+bits), the reader gives the subtable back, and the declared size is the emitted size. -/
+
+/-- SeqContext1 (glyph rules; one rule set per covered glyph) -/
+theorem C08_st_roundtrip_seqcontext1 (rev : List Nat) (sets : List (Option (List Ctx.Rule))) (h : Cov.Valid rev)
+    (hl : sets.length = rev.length)
+    (hok : ∀ s ∈ sets, ∀ rules, s = some rules → ∀ r ∈ rules, Ctx.ROk1 r) (b : Bytes)
+    (henc : Ctx.encode1 rev sets = .ok b) :
+    Ctx.read1 b = .ok (.c1 false rev.zipIdx sets) ∧ Ctx.encodeLen1 rev sets = .ok b.length :=
+  Ctx.roundtrip1 rev sets h hl hok b henc
+
+/-- SeqContext3 (one coverage table per position; the reader requires at least one) -/
+theorem C08_st_roundtrip_seqcontext3 (covs : List (List Nat)) (actions : List Ctx.Action)
+    (hv : ∀ c ∈ covs, Cov.Valid c) (hne : covs ≠ []) (ha : ∀ a ∈ actions, Ctx.ActOk a) (b : Bytes)
+    (henc : Ctx.encode3 covs actions = .ok b) :
+    Ctx.read3 b = .ok (.c3 [] covs [] actions false) ∧ Ctx.encodeLen3 covs actions = .ok b.length :=
+  Ctx.roundtrip3 covs actions hv hne ha b henc
+
+/-- ChainedSeqContext1.  `hn`: the coverage offset 6 + 2·(number of rule sets) fits 16 bits - the encoder
+checks offsets only when it meets a non-nil rule set (see cfg: more than 32764 rule sets, all nil). -/
+theorem C08_st_roundtrip_chainedseqcontext1 (rev : List Nat) (sets : List (Option (List Ctx.Rule)))
+    (h : Cov.Valid rev) (hl : sets.length = rev.length) (hn : 6 + 2 * sets.length ≤ 65535)
+    (hok : ∀ s ∈ sets, ∀ rules, s = some rules → ∀ r ∈ rules, Ctx.ROkC r) (b : Bytes)
+    (henc : Ctx.encodeC1 rev sets = .ok b) :
+    Ctx.readC1 b = .ok (.c1 true rev.zipIdx sets) ∧ Ctx.encodeLenC1 rev sets = .ok b.length :=
+  Ctx.roundtripC1 rev sets h hl hn hok b henc
+
+/-- ChainedSeqContext3 (backtrack, input, lookahead coverage lists; the reader requires an input) -/
+theorem C08_st_roundtrip_chainedseqcontext3 (back input look : List (List Nat)) (actions : List Ctx.Action)
+    (hvb : ∀ c ∈ back, Cov.Valid c) (hvi : ∀ c ∈ input, Cov.Valid c) (hvl : ∀ c ∈ look, Cov.Valid c)
+    (hne : input ≠ []) (ha : ∀ a ∈ actions, Ctx.ActOk a) (b : Bytes)
+    (henc : Ctx.encodeC3 back input look actions = .ok b) :
+    Ctx.readC3 b = .ok (.c3 back input look actions true) ∧
+    Ctx.encodeLenC3 back input look actions = .ok b.length :=
+  Ctx.roundtripC3 back input look actions hvb hvi hvl hne ha b henc
+
+/-- Class definition tables of the class-based formats: what `Append`/`AppendLen` give for a table
+with 16-bit glyph ids and classes satisfies the hypotheses `Ctx.PartGood` / `Ctx.PartGoodW` below. -/
+theorem C08_ctx_classpart (m : ClassDef.Tab) (hm : Gdef.ClassGood m) (B : Bytes)
+    (hB : ClassDef.append m = .ok B) :
+    (∃ k, Ctx.PartGood ⟨ClassDef.append m, ClassDef.appendLen m⟩ B k ∧
+      ∀ g, ClassDef.classOf k g = ClassDef.get m g) ∧
+    (∃ ws k, Ctx.PartGoodW ⟨ClassDef.append m, ClassDef.appendLen m⟩ ws k ∧
+      ∀ g, ClassDef.classOf k g = ClassDef.get m g) :=
+  ⟨Ctx.partGood_of_table m hm B hB, Ctx.partGoodW_of_table m hm B hB⟩
+
+/-- SeqContext2 (class rules).  `hcls`: the class definition table has a class for every rule set (the
+reader keeps only `NumClasses` rule sets). -/
+theorem C08_st_roundtrip_seqcontext2 (rev : List Nat) (cd : Ctx.ClassPart) (D : Bytes) (k : List (Nat × Nat))
+    (g : Ctx.PartGood cd D k) (sets : List (Option (List Ctx.Rule))) (h : Cov.Valid rev)
+    (hcls : sets.length ≤ Ctx.numClasses k)
+    (hok : ∀ s ∈ sets, ∀ rules, s = some rules → ∀ r ∈ rules, Ctx.ROk1 r) (b : Bytes)
+    (henc : Ctx.encode2 rev cd sets = .ok b) :
+    Ctx.read2 b = .ok (.c2 false rev.zipIdx [k] sets) ∧ Ctx.encodeLen2 rev cd sets = .ok b.length :=
+  Ctx.roundtrip2 rev cd D k g sets h hcls hok b henc
+
+/-- ChainedSeqContext2 (class rules with backtrack and lookahead classes).  `hcls` as above for the input
+classes; `hal`: re-encoding the three decoded class tables needs no more room than the tables written
+(the reader recomputes the positions the encoder checked from the decoded tables); `hn`: the header
+offsets fit 16 bits (checked by the encoder only when it meets a non-nil rule set). -/
+theorem C08_st_roundtrip_chainedseqcontext2 (rev : List Nat) (cb ci cl : Ctx.ClassPart) (Wb Wi Wl : List Nat)
+    (kb ki kl : List (Nat × Nat)) (gb : Ctx.PartGoodW cb Wb kb) (gi : Ctx.PartGoodW ci Wi ki)
+    (gl : Ctx.PartGoodW cl Wl kl) (sets : List (Option (List Ctx.Rule))) (h : Cov.Valid rev)
+    (hcls : sets.length ≤ Ctx.numClasses ki)
+    (hal : Ctx.appendLenOf kb + Ctx.appendLenOf ki + Ctx.appendLenOf kl ≤ cb.len + ci.len + cl.len)
+    (hn : 12 + 2 * sets.length + 2 * (Cov.encodeW rev).length + cb.len + ci.len + cl.len ≤ 65535)
+    (hok : ∀ s ∈ sets, ∀ rules, s = some rules → ∀ r ∈ rules, Ctx.ROkC r) (b : Bytes)
+    (henc : Ctx.encodeC2 rev cb ci cl sets = .ok b) :
+    Ctx.readC2 b = .ok (.c2 true rev.zipIdx [kb, ki, kl] sets) ∧
+    Ctx.encodeLenC2 rev cb ci cl sets = .ok b.length :=
+  Ctx.roundtripC2 rev cb ci cl Wb Wi Wl kb ki kl gb gi gl sets h hcls hal hn hok b henc
+
+example : Ctx.encodeC1 [10] [some [⟨[9], [1], [], [(0, 1)]⟩]] =
+    .ok (wordsToBytes [1, 8, 1, 14, 1, 1, 10, 1, 4, 1, 9, 2, 1, 0, 1, 0, 1]) := by decide
+example : Ctx.encode3 [[3, 4], [7]] [(0, 1)] =
+    .ok (wordsToBytes [3, 2, 1, 14, 22, 0, 1, 1, 2, 3, 4, 1, 1, 7]) := by decide
 
 /-! ## Feature list (`FeatureListInfo.encode` / `readFeatureList`)
 
